@@ -329,3 +329,51 @@ fn k_reset_idle() {
     kani::cover!(occ[7] && occ[0]);
     kani::cover!(r.bounds_bottom < r.bounds_top);
 }
+
+// ------------------------------------------------------------------ rasterize driver (C01 #9)
+pub static mut SEQ: [(u8, i32); 40] = [(0, 0); 40];
+pub static mut SEQ_N: usize = 0;
+fn seq_push(k: u8, y: i32) { unsafe { if SEQ_N < 40 { SEQ[SEQ_N] = (k, y); } SEQ_N += 1; } }
+fn ins_rec(r: &mut Rasterizer) { seq_push(1, r.cur_y); }
+fn scan_rec(r: &mut Rasterizer, _b: &mut dyn RasterBlitter, w: Winding) { seq_push(if w == Winding::EvenOdd { 2 } else { 12 }, r.cur_y); }
+fn step_rec(r: &mut Rasterizer) { seq_push(3, r.cur_y); }
+fn sort_rec(r: &mut Rasterizer) { seq_push(4, r.cur_y); }
+
+// @ob id=K.rasterize_order props=C01,C10 kind=bounded:height=2px tier=quick timeout=600 fns=Rasterizer::rasterize,Rasterizer::get_bounds
+// @+ desc="rasterize visits exactly the sample rows 4*max(bounds_top,0) .. min(4*bounds_bottom,height) rounded up to whole pixel rows, each once, in increasing order, doing insert -> scan -> step -> sort on every sample row with the caller's winding rule (the four callees replaced by recorders); get_bounds() = bounds ∩ surface; bounds symbolic"
+#[kani::proof]
+#[kani::unwind(34)]
+#[kani::stub(Rasterizer::insert_starting_edges, ins_rec)]
+#[kani::stub(Rasterizer::scan_edges, scan_rec)]
+#[kani::stub(Rasterizer::step_edges, step_rec)]
+#[kani::stub(Rasterizer::sort_edges, sort_rec)]
+fn k_rasterize_order() {
+    let mut r = Rasterizer::new(3, 2);
+    r.bounds_top = kani::any(); r.bounds_bottom = kani::any(); r.bounds_left = kani::any(); r.bounds_right = kani::any();
+    kani::assume(r.bounds_top >= -1000 && r.bounds_top <= 1000 && r.bounds_bottom >= -1000 && r.bounds_bottom <= 1000);
+    kani::assume(r.bounds_left >= -1000 && r.bounds_left <= 1000 && r.bounds_right >= -1000 && r.bounds_right <= 1000);
+    let b = r.get_bounds();
+    assert!(b.min.x == r.bounds_left.max(0) && b.min.y == r.bounds_top.max(0) && b.max.x == r.bounds_right.min(3) && b.max.y == r.bounds_bottom.min(2), "get_bounds = bounds ∩ surface");
+    let eo: bool = kani::any();
+    let mut rec = RecRaster { n: 0, spans: [(0, 0, 0); SPAN_CAP] };
+    unsafe { SEQ_N = 0; }
+    r.rasterize(&mut rec, if eo { Winding::EvenOdd } else { Winding::NonZero });
+    let start = (4 * r.bounds_top).max(0);
+    let end = (4 * r.bounds_bottom).min(8);
+    let rows = if end > start { ((end - start + 3) / 4) * 4 } else { 0 };
+    let n = unsafe { SEQ_N };
+    assert!(n == (rows * 4) as usize, "four sample rows per pixel row, four phases per sample row");
+    let mut i = 0;
+    while i < 32 {
+        if i < n {
+            let (k, y) = unsafe { SEQ[i] };
+            let phase = (i % 4) as u8;
+            assert!(y == start + (i / 4) as i32, "rows in increasing order, each once");
+            assert!(k == [1, if eo { 2 } else { 12 }, 3, 4][phase as usize], "insert, scan, step, sort");
+        }
+        i += 1;
+    }
+    kani::cover!(rows == 8);
+    kani::cover!(rows == 4 && start == 4);
+    kani::cover!(rows == 0);
+}
